@@ -805,3 +805,68 @@ func TestC07_PowerOfTwoIndexes(t *testing.T) {
 		cl.done(true)
 	})
 }
+
+// TestC07_BalancedWeights: bins whose weights are not 1 but add up to the number of bins (1-d and 1+d, d a dyadic
+// fraction), far enough apart for the sparse layouts, in dense-family producers (and the others): the stream, read
+// as the documentation says, must carry each bin's own weight.
+func TestC07_BalancedWeights(t *testing.T) {
+	rapid.Check(t, func(t *rapid.T) {
+		cl := newCase("C07")
+		cl.label("direction:balanced-weights")
+		spec, m := buildMapping(t, 1e-3, 0.3)
+		kind := rapid.SampledFrom([]gen.StoreKind{{Name: "dense"}, {Name: "dense"}, {Name: "collow", N: 4096}, {Name: "colhigh", N: 4096}, {Name: "sparse"}, {Name: "paginated"}}).Draw(t, "kind")
+		s := ddsketch.NewDDSketch(m, kind.New(), kind.New())
+		base := m.Index(1)
+		pairs := rapid.IntRange(1, 4).Draw(t, "pairs")
+		want := map[int64]float64{}
+		step := rapid.SampledFrom([]int{1, 2, 40, 300}).Draw(t, "step")
+		if dom := newDomain(m); base+step*12 >= dom.maxIdx {
+			step = max(1, (dom.maxIdx-base-1)/12)
+		}
+		idx := base
+		units := rapid.IntRange(0, 3).Draw(t, "units")
+		for p := 0; p < pairs; p++ {
+			d := rapid.SampledFrom([]float64{0.5, 0.25, 0.75, 0.125}).Draw(t, "d")
+			for _, w := range []float64{1 - d, 1 + d} {
+				idx += step
+				if err := s.AddWithCount(m.Value(idx), w); err != nil {
+					t.Fatalf("C07 balanced: AddWithCount: %v", err)
+				}
+				want[int64(m.Index(m.Value(idx)))] += w
+			}
+		}
+		for u := 0; u < units; u++ {
+			idx += step
+			_ = s.Add(m.Value(idx))
+			want[int64(m.Index(m.Value(idx)))]++
+		}
+		var b []byte
+		s.Encode(&b, rapid.Bool().Draw(t, "omit"))
+		cl.logf("C07 balanced weights %s kind=%s bins=%v stream % x", spec, kind, want, b)
+		pc, _, err := refdec.Parse(b)
+		if err != nil {
+			t.Fatalf("C07 balanced: the encoding does not parse: %v", err)
+		}
+		got := pc.Bins(false)
+		if len(got) != len(want) {
+			t.Fatalf("C07 balanced %s: the stream, read as documented, holds bins %v; the sketch holds %v", kind, got, want)
+		}
+		for i, w := range want {
+			if got[i] != w {
+				t.Fatalf("C07 balanced %s: the stream, read as documented, holds bins %v; the sketch holds %v", kind, got, want)
+			}
+		}
+		dec, err := ddsketch.DecodeDDSketch(b, gen.StoreKind{Name: "sparse"}.Provider(), m)
+		if err != nil {
+			t.Fatalf("C07 balanced: DecodeDDSketch: %v", err)
+		}
+		back := map[int64]float64{}
+		dec.GetPositiveValueStore().ForEach(func(i int, c float64) bool { back[int64(i)] += c; return false })
+		for i, w := range want {
+			if back[i] != w {
+				t.Fatalf("C07 balanced %s: decoded bins %v, the sketch holds %v", kind, back, want)
+			}
+		}
+		cl.done(true)
+	})
+}
